@@ -231,7 +231,13 @@ func evalOb(c *Ctx, e *e1, ob Ob) (nMatched int) {
 				// sink term with variables replaced by their (still valid) definitions
 				matchedX := false
 				if len(s.states) > 0 && s.kind != "ret" || (s.kind == "ret" && len(s.states) > 0) {
-					for _, x := range f.expandDefs(s.states[0], st) {
+					cands := f.expandDefs(s.states[0], st)
+					// ... and with calls of interpreted helpers replaced by the value they returned on this path
+					if r := expandReturned(s.states[0], st); r != nil {
+						cands = append(cands, r)
+						cands = append(cands, f.expandDefs(s.states[0], r)...)
+					}
+					for _, x := range cands {
 						nb := base.clone()
 						if unify(pat, x, nb) {
 							b, matchedX = nb, true
@@ -383,4 +389,41 @@ func e1Controls() []Ob {
 func rebindable(t types.Type) bool {
 	ts := typeStr(t)
 	return ts == "context.Context" || ts == "*http.Request"
+}
+
+
+// expandReturned: the term with every call of an interpreted helper replaced by the value recorded for it (eq(call, V)).
+func expandReturned(st *fstate, t *Term) *Term {
+	vals := map[string]*Term{}
+	for _, fc := range st.facts {
+		if fc.S == "eq" && len(fc.A) == 2 && (fc.A[0].K == "call" || fc.A[0].K == "mcall") && fc.A[1].K != "call" && fc.A[1].K != "mcall" {
+			vals[fc.A[0].Key()] = fc.A[1]
+		}
+	}
+	if len(vals) == 0 {
+		return nil
+	}
+	changed := false
+	var rec func(t *Term, top bool) *Term
+	rec = func(t *Term, top bool) *Term {
+		if !top {
+			if v, ok := vals[t.Key()]; ok {
+				changed = true
+				return v
+			}
+		}
+		if len(t.A) == 0 {
+			return t
+		}
+		n := &Term{K: t.K, S: t.S, Obj: t.Obj}
+		for _, a := range t.A {
+			n.A = append(n.A, rec(a, false))
+		}
+		return n
+	}
+	out := rec(t, true)
+	if !changed {
+		return nil
+	}
+	return out
 }
